@@ -6,7 +6,10 @@
 use super::*;
 include!("/verif/kani/common.rs");
 
-const RX_MAX: usize = 2;
+const RX_MAX: usize = 3;
+/// telegrams delivered in one poll: 2 in general; 3 while supervising a token pass (a burst that takes the station to
+/// ListenToken and then offers it the token needs three)
+fn rx_limit(kind: u8) -> usize { if kind == 6 { 3 } else { 2 } }
 
 // ------------------------------------------------------------------------------------------------ PHY
 struct NondetPhy {
@@ -248,6 +251,7 @@ fn step(kind: u8) -> (FdlActiveStation, FdlActiveStation, NondetPhy, crate::time
     let mut f = any_station_clone(&f0);
     let ts = f.p.address;
     let mut phy = any_phy();
+    kani::assume(phy.n_rx <= rx_limit(kind));
     let awaited = match &f.state { State::AwaitDataResponse { address, .. } => Some(*address), _ => None };
     let mut a0 = NondetApp { ts, idx: 0, tx_calls: 0, rx_calls: 0, to_calls: 0, awaited, asked_high_only: false };
     let mut a1 = NondetApp { ts, idx: 1, tx_calls: 0, rx_calls: 0, to_calls: 0, awaited, asked_high_only: false };
@@ -331,7 +335,7 @@ fn slot_expired(f0: &FdlActiveStation, phy: &NondetPhy, now: crate::time::Instan
 macro_rules! step_harness {
     ($name:ident, $kind:expr, $body:expr) => {
         #[kani::proof]
-        #[kani::unwind(5)]
+        #[kani::unwind(6)]
         #[kani::stub(crate::fdl::TelegramTx::send_data_telegram, crate::fdl::__verif_kani_telegram::vk_stub_send_data_telegram)]
         #[kani::stub(crate::fdl::TokenRing::witness_token_pass, crate::fdl::__verif_kani_token_ring::vk_stub_witness)]
         #[kani::stub(crate::fdl::TokenRing::set_next_station, crate::fdl::__verif_kani_token_ring::vk_stub_set_next_station)]
@@ -372,6 +376,15 @@ step_harness!(fdl_step_listen_token, 0, |f0, f, phy, now, apps, _n| {
         assert!(matches!(f.state, State::ActiveIdle { .. }) == ready);
     }
     if matches!(f.state, State::ActiveIdle { .. }) { assert!(sent_data(phy).is_some()); }
+    // C12.status: a requester is recorded only for a status request addressed to us that is the LAST telegram of the
+    // batch (nothing buffered behind it) - a request followed by other traffic is stale, its slot time is over
+    if let (State::ListenToken { status_request: sr1, .. }, State::ListenToken { status_request: sr0, .. }) = (&f.state, &f0.state) {
+        if sr1.is_some() && sr1 != sr0 {
+            assert!(phy.delivered >= 1 && phy.delivered == phy.n_rx && !phy.trailing);
+            let k = phy.delivered - 1;
+            assert!(phy.rx_is_status_req[k] && phy.rx_da[k] == ts && Some(phy.rx_sa[k]) == *sr1);
+        }
+    }
     kani::cover!(sent_data(phy).is_some());
 });
 
@@ -450,6 +463,12 @@ step_harness!(fdl_step_use_token, 3, |f0, f, phy, now, apps, napps| {
         // C15.ask: each application at most once per call, starting with next_application, in round-robin order
         assert!(apps[0].tx_calls <= 1 && apps[1].tx_calls <= 1 && (asked as usize) <= napps);
         if napps == 0 { assert!(asked == 0 && matches!(f.state, State::PassToken { .. })); }
+        // C13.one-cycle / C15.fair: when nobody transmits, the (possibly only guaranteed) message cycle was offered to every
+        // application whose turn had not come yet in this visit - a decline never costs the others their offer
+        if (before_deadline || !fcd0) && napps >= 1 && phy.tx_count == 0 {
+            let d = match data0.first_app { None => napps, Some(fa) => { let d = (fa + napps - f0.next_application) % napps; if d == 0 { napps } else { d } } };
+            assert!(asked as usize == d);
+        }
         if asked >= 1 { assert!(unsafe { VK_APP_ORDER[0] } as usize == f0.next_application); }
         if asked == 2 { assert!(unsafe { VK_APP_ORDER[1] } as usize == (f0.next_application + 1) % napps); }
         if phy.tx_count == 1 {
@@ -561,6 +580,11 @@ step_harness!(fdl_step_check_token_pass, 6, |f0, f, phy, now, apps, _n| {
             // a successor that was heard is never removed
             assert!(removed() == 0 && phy.tx_count == 0);
             if phy.n_rx == 0 { assert!(f.state == f0.state); } else { assert!(matches!(f.state, State::ActiveIdle { .. } | State::ListenToken { .. } | State::UseToken { .. })); }
+            // C11.listen: two tokens carrying our own address back to back take the station out of the ring; whatever
+            // follows in the same batch (also a token from the predecessor) is only listened to - it stays in ListenToken
+            let coll = |i: usize| i < phy.n_rx && phy.rx_kind[i] == 1 && phy.rx_sa[i] == ts;
+            if (coll(0) && coll(1)) || (coll(1) && coll(2)) { assert!(matches!(f.state, State::ListenToken { .. })); }
+            kani::cover!(coll(0) && coll(1) && phy.n_rx == 3);
         }
     }
     kani::cover!(removed() == 1);
@@ -593,3 +617,27 @@ step_harness!(fdl_step_await_status, 7, |f0, f, phy, now, apps, _n| {
     }
     kani::cover!(setns() == address);
 });
+
+/// C05.api-offline (also C15): going offline - by the user, from any state - leaves a station that equals a freshly
+/// constructed one.  The documentation allows the application list to be exchanged while offline, so in particular the
+/// round-robin cursor must not survive (it would index past a shorter list).
+#[kani::proof]
+#[kani::unwind(6)]
+fn c05_set_offline_resets() {
+    let now = vk_any_instant();
+    let napps: usize = kani::any();
+    kani::assume(napps <= 2);
+    let kind: u8 = kani::any();
+    kani::assume(kind <= 7);
+    let mut f = any_station(kind, napps, now);
+    f.next_application = kani::any();
+    kani::assume(f.next_application < 8);
+    let ts = f.p.address;
+    f.set_offline();
+    assert!(matches!(f.state, State::Offline) && f.connectivity_state == ConnectivityState::Offline);
+    assert!(f.next_application == 0);
+    assert!(f.pending_bytes == 0 && f.last_bus_activity.is_none());
+    assert!(f.gap_state == (GapState::DoPoll { current_address: ts }));
+    assert!(f.last_token_time == crate::time::Instant::ZERO && f.end_token_hold_time == crate::time::Instant::ZERO);
+    assert!(!f.token_ring.ready_for_ring() && f.p.address == ts);
+}
